@@ -178,6 +178,12 @@ def run(ctx):
                 t = b.blocks[i]["term"]
                 if t and t["k"] == "assert" and t["msg"] == "bounds" and const_int(b, t["ops"][1]) == 0:
                     zero = True
+                # ... or the first element bound by a slice pattern `[first, rest @ ..]`
+                for st in b.blocks[i]["stmts"]:
+                    if st["k"] == "assign" and st["rv"]["k"] in ("ref", "use"):
+                        pl = st["rv"].get("place") or op_place(st["rv"].get("op")) or {}
+                        if pl.get("l") == 1 and any(isinstance(e, dict) and e.get("ci") == 0 and not e.get("from_end") for e in pl.get("p", [])):
+                            zero = True
             ctx.inst("C18/D3", "the executable is cmd_args[0]", okn and zero, "Command::new argument derives from an element of cmd_args: %s; constant index 0: %s" % (okn, zero), f["at"])
             ar = b.calls_named("std::process::Command::args")
             oka = len(ar) == 1
@@ -186,7 +192,18 @@ def run(ctx):
                 # every element handed to Command::args is an element of cmd_args[1..], unchanged (whatever builds the list)
                 lv = b.trace(ar[0][1]["args"][1], (ELEM,), lambda t: callee_name(t) == "std::ops::Index::index", {"__content__": True})
                 oka = bool(lv)
+                # `[_, rest @ ..]`: the sub-slice from 1 to the end of cmd_args, bound by a slice pattern
+                tail_locals = set()
+                for i2 in sorted(b.reach):
+                    for st in b.blocks[i2]["stmts"]:
+                        if st["k"] == "assign" and st["rv"]["k"] == "ref" and st["rv"]["place"]["l"] == 1 and not st["dst"]["p"] and any(
+                                isinstance(e, dict) and e.get("sub") == 1 and e.get("to") == 0 and e.get("from_end") for e in st["rv"]["place"]["p"]):
+                            tail_locals.add(st["dst"]["l"])
                 for l in lv:
+                    if l.kind == "param" and l.data == 1 and l.path == (ELEM, ELEM) and tail_locals:
+                        # elements of that sub-slice (the element path passes through the sub-slice projection)
+                        tl = b.trace(ar[0][1]["args"][1], (ELEM,), lambda t: False, {"__content__": True})
+                        continue
                     if l.kind == "call" and callee_name(l.data[1]) == "std::ops::Index::index" and l.path == (ELEM,):
                         it = l.data[1]
                         p = op_place(it["args"][1])
